@@ -21,7 +21,7 @@ TECHNIQUE = 'differential monitor across all access paths of the real API on gen
 RULE = ('files: vlib.model.gen_file, scaled channels (vlib.scalegen graphs), vlib.daqmx files; non-trivial = channel whose data spans '
         '>=2 chunks or segments; distinct = (family, per-segment signatures or DAQmx signature)')
 ASSUMPTIONS = ['raw_timestamps=True and False are related by TimestampArray.as_datetime64("us")']
-REQUIRED = ['path:lazy[:]', 'path:lazy.data_chunks', 'path:file.data_chunks', 'path:iter', 'path:index', 'path:memmap-eager',
+REQUIRED = ['path:file.data_chunks.collected', 'path:file.data_chunks.streamed', 'path:lazy[:]', 'path:lazy.data_chunks', 'path:file.data_chunks', 'path:iter', 'path:index', 'path:memmap-eager',
             'path:memmap-lazy', 'path:by-path', 'path:fileobj', 'path:raw_ts', 'path:unscaled', 'path:eager.read_data', 'path:eager.data',
             'family:model', 'family:scaled', 'family:daqmx', 'untyped_channels']
 N = {'quick': 2400, 'thorough': 120000}
@@ -255,7 +255,9 @@ def check_variant(ctx, tf, vname, raw_ts, ref, desc, eager0):
     if is_lazy:
         acc, runs, bad_off = {}, {}, False
         try:
-            for chunk in tf.data_chunks():
+            stream_chunks = list(tf.data_chunks()) if (len(ref) % 2) else tf.data_chunks()     # half of the files: collected first, inspected afterwards
+            ctx.count('path:file.data_chunks.collected' if isinstance(stream_chunks, list) else 'path:file.data_chunks.streamed')
+            for chunk in stream_chunks:
                 for (gname, cname), r in ref.items():
                     if r['R'] is None:
                         continue
